@@ -464,6 +464,11 @@ class OutHandler(OutputInterceptionDataHandler):
 
     def prepare_output_for_recording(self, interception_key, args, kwargs):
         call = self.env.cur() or {}
+        if call.get('fault') == 'disable_in_handler' and self.env.recorder is not None:
+            # recording is switched off (another thread, a kill switch) exactly while the output is being captured
+            self.env.run.fault('disable_in_handler')
+            self.env.disabled_in_body = True
+            self.env.recorder.disable_recording()
         if call.get('fault') in ('handler_raises', 'disable_in_body_handler_raises'):
             self.env.run.fault('handler_raises')
             raise RuntimeError('injected: output handler fails')
@@ -1172,7 +1177,7 @@ def place_fault(spec, st, kind, run):
         lst.insert(n, {'discard_before': ['discard'], 'force_before': ['force'], 'raise_before': ['raise', D.ErrB],
                        'interrupt_before': ['interrupt']}[kind])
         return kind
-    if kind in ('handler_raises', 'disable_in_body_handler_raises'):
+    if kind in ('handler_raises', 'disable_in_body_handler_raises', 'disable_in_handler'):
         (spec.inputs if st[0] == 'in' else spec.outputs)[st[1]].handler = True
     if kind == 'resolver_raises':
         ispec = spec.inputs[st[1]]
